@@ -48,4 +48,269 @@ theorem union1d_pairwise (le : β → β → Bool)
     (union1d le a b).Pairwise (fun x y => le x y = true) :=
   (sortBy_pairwise le htrans htot (a ++ b)).sublist (dedup_sublist _)
 
+/-! ## helpers for the end-to-end `align` theorems (round 2) -/
+
+open Lib
+
+/-! ### `mapM` / `foldlM` in `Except` -/
+
+theorem exMapM_cons_ok {ε β γ : Type} (f : β → Except ε γ) (a : β) (l : List β) (out : List γ)
+    (h : (a :: l).mapM f = .ok out) : ∃ b bs, f a = .ok b ∧ l.mapM f = .ok bs ∧ out = b :: bs := by
+  rw [List.mapM_cons] at h
+  simp only [bind, Except.bind, pure, Except.pure] at h
+  cases hfa : f a with
+  | error e => simp [hfa] at h
+  | ok b =>
+    simp only [hfa] at h
+    cases hl : l.mapM f with
+    | error e => simp [hl] at h
+    | ok bs =>
+      simp only [hl, Except.ok.injEq] at h
+      exact ⟨b, bs, rfl, rfl, h.symm⟩
+
+/-- success of `mapM` is success of every step, in order -/
+theorem exMapM_ok {ε β γ : Type} (f : β → Except ε γ) : ∀ (l : List β) (out : List γ),
+    l.mapM f = .ok out →
+    out.length = l.length ∧ ∀ i (hi : i < l.length) (ho : i < out.length), f l[i] = .ok out[i]
+  | [], out, h => by
+    simp only [List.mapM_nil, pure, Except.pure, Except.ok.injEq] at h
+    subst h
+    exact ⟨rfl, fun i hi => absurd hi (by simp)⟩
+  | a :: l, out, h => by
+    obtain ⟨b, bs, hb, hl, rfl⟩ := exMapM_cons_ok f a l out h
+    obtain ⟨h1, h2⟩ := exMapM_ok f l bs hl
+    refine ⟨by simp [h1], ?_⟩
+    intro i hi ho
+    cases i with
+    | zero => simpa using hb
+    | succ i =>
+      simp only [List.getElem_cons_succ]
+      exact h2 i (by simpa using hi) (by simpa using ho)
+
+theorem exFoldlM_cons {ε β γ : Type} (f : γ → β → Except ε γ) (a : β) (l : List β) (s : γ) :
+    (a :: l).foldlM f s = (f s a >>= fun s' => l.foldlM f s') := by
+  simp [List.foldlM_cons]
+
+/-- a fold of element-wise `mapM`s is, for each element, the fold of its own steps -/
+theorem exFoldlM_mapM_ok {ε β γ : Type} (g : β → γ → Except ε γ) : ∀ (cs : List β) (arrs outs : List γ),
+    cs.foldlM (fun arrs c => arrs.mapM (g c)) arrs = .ok outs →
+    outs.length = arrs.length ∧
+      ∀ i (hi : i < arrs.length) (ho : i < outs.length), cs.foldlM (fun o c => g c o) arrs[i] = .ok outs[i]
+  | [], arrs, outs, h => by
+    simp only [List.foldlM_nil, pure, Except.pure, Except.ok.injEq] at h
+    subst h
+    exact ⟨rfl, fun i hi ho => rfl⟩
+  | c :: cs, arrs, outs, h => by
+    rw [List.foldlM_cons] at h
+    cases h1 : arrs.mapM (g c) with
+    | error e => simp [h1, bind, Except.bind] at h
+    | ok arrs1 =>
+      simp only [h1, bind, Except.bind] at h
+      obtain ⟨hl1, hs1⟩ := exMapM_ok (g c) arrs arrs1 h1
+      obtain ⟨hl2, hs2⟩ := exFoldlM_mapM_ok g cs arrs1 outs h
+      refine ⟨hl2.trans hl1, ?_⟩
+      intro i hi ho
+      rw [List.foldlM_cons]
+      have := hs1 i hi (hl1 ▸ hi)
+      simp only [this, bind, Except.bind]
+      exact hs2 i (hl1 ▸ hi) ho
+
+/-! ### `InRange` by coordinates -/
+
+theorem inRange_iff_getD : ∀ (s j : List Nat),
+    InRange s j ↔ j.length = s.length ∧ ∀ k, k < s.length → j.getD k 0 < s.getD k 0
+  | [], [] => by simp [InRange]
+  | [], _ :: _ => by simp [InRange]
+  | _ :: _, [] => by simp [InRange]
+  | n :: s, i :: is => by
+    simp only [InRange, inRange_iff_getD s is, List.length_cons, Nat.add_right_cancel_iff]
+    constructor
+    · rintro ⟨h0, hl, hk⟩
+      refine ⟨hl, ?_⟩
+      intro k hk'
+      cases k with
+      | zero => simpa using h0
+      | succ k => simpa using hk k (by omega)
+    · rintro ⟨hl, hk⟩
+      refine ⟨by simpa using hk 0 (by omega), hl, ?_⟩
+      intro k hk'
+      simpa using hk (k + 1) (by omega)
+
+/-! ### finding an axis by name -/
+
+theorem findName_none (axes : List Axis) (d : String) :
+    axes.find? (·.name == d) = none ↔ d ∉ axes.map (·.name) := by
+  simp only [List.find?_eq_none, List.mem_map, beq_iff_eq, not_exists, not_and]
+
+theorem findName_some : ∀ (axes : List Axis) (d : String), d ∈ axes.map (·.name) →
+    (axes.map (·.name)).idxOf d < axes.length ∧
+    axes.find? (·.name == d) = some (axes.getD ((axes.map (·.name)).idxOf d) default) ∧
+    (axes.getD ((axes.map (·.name)).idxOf d) default).name = d
+  | [], d, h => by simp at h
+  | ax :: axes, d, h => by
+    by_cases hd : ax.name = d
+    · simp [hd]
+    · have h' : d ∈ axes.map (·.name) := by
+        simp only [List.map_cons, List.mem_cons] at h
+        rcases h with h | h
+        · exact absurd h.symm hd
+        · exact h
+      obtain ⟨h1, h2, h3⟩ := findName_some axes d h'
+      have hb : (ax.name == d) = false := by simpa using hd
+      simp only [List.map_cons, List.idxOf_cons, hb, cond_false, List.length_cons, List.find?_cons,
+        List.getD_cons_succ]
+      exact ⟨by omega, h2, h3⟩
+
+/-- with distinct names, the axis found by name is THE axis of that name -/
+theorem findName_unique (axes : List Axis) (hn : (axes.map (·.name)).Nodup) (ax : Axis) (hax : ax ∈ axes) :
+    axes.find? (·.name == ax.name) = some ax := by
+  induction axes with
+  | nil => simp at hax
+  | cons x xs ih =>
+    simp only [List.map_cons, List.nodup_cons] at hn
+    rcases List.mem_cons.mp hax with rfl | h
+    · simp
+    · have hne : x.name ≠ ax.name := by
+        intro he
+        exact hn.1 (he ▸ List.mem_map.mpr ⟨ax, h, rfl⟩)
+      have hb : (x.name == ax.name) = false := by simpa using hne
+      simp only [List.find?_cons, hb]
+      exact ih hn.2 h
+
+theorem findName_mem (axes : List Axis) (d : String) (ax : Axis)
+    (h : axes.find? (·.name == d) = some ax) : ax ∈ axes ∧ ax.name = d := by
+  refine ⟨List.mem_of_find?_eq_some h, ?_⟩
+  have := List.find?_some h
+  simpa using this
+
+/-- with distinct names, the position of a name determines it -/
+theorem idxOf_name_eq (names : List String) (hn : names.Nodup) (k : Nat) (hk : k < names.length) :
+    names.idxOf names[k] = k := by
+  induction names generalizing k with
+  | nil => simp at hk
+  | cons x xs ih =>
+    simp only [List.nodup_cons] at hn
+    cases k with
+    | zero => simp
+    | succ k =>
+      have hk' : k < xs.length := by simpa using hk
+      have hne : x ≠ xs[k] := by
+        intro he; exact hn.1 (he ▸ List.getElem_mem hk')
+      have hb : (x == xs[k]) = false := by simpa using hne
+      simp only [List.getElem_cons_succ, List.idxOf_cons, hb, cond_false]
+      rw [ih hn.2 k hk']
+
+/-! ### `get_dims` -/
+
+theorem getDims_inner (axes : List Axis) : ∀ (dims : List String), dims.Nodup →
+    (axes.foldl (fun ds ax => if ds.contains ax.name then ds else ds ++ [ax.name]) dims).Nodup ∧
+    ∀ d, d ∈ axes.foldl (fun ds ax => if ds.contains ax.name then ds else ds ++ [ax.name]) dims ↔
+      d ∈ dims ∨ ∃ ax ∈ axes, ax.name = d := by
+  induction axes with
+  | nil => intro dims hn; simp [hn]
+  | cons x xs ih =>
+    intro dims hn
+    simp only [List.foldl_cons]
+    by_cases hc : dims.contains x.name = true
+    · simp only [hc, if_true]
+      obtain ⟨h1, h2⟩ := ih dims hn
+      refine ⟨h1, fun d => ?_⟩
+      rw [h2 d]
+      have hx : x.name ∈ dims := by simpa using hc
+      constructor
+      · rintro (h | ⟨ax, ha, hd⟩)
+        · exact Or.inl h
+        · exact Or.inr ⟨ax, by simp [ha], hd⟩
+      · rintro (h | ⟨ax, ha, hd⟩)
+        · exact Or.inl h
+        · rcases List.mem_cons.mp ha with rfl | ha'
+          · exact Or.inl (hd ▸ hx)
+          · exact Or.inr ⟨ax, ha', hd⟩
+    · simp only [hc, if_false, Bool.false_eq_true]
+      have hx : x.name ∉ dims := by simpa using hc
+      have hn' : (dims ++ [x.name]).Nodup := by
+        rw [List.nodup_append]
+        refine ⟨hn, by simp, ?_⟩
+        intro a ha b hb hab
+        simp only [List.mem_singleton] at hb
+        subst hb; subst hab; exact hx ha
+      obtain ⟨h1, h2⟩ := ih (dims ++ [x.name]) hn'
+      refine ⟨h1, fun d => ?_⟩
+      rw [h2 d]
+      simp only [List.mem_append, List.mem_cons, List.not_mem_nil, or_false]
+      constructor
+      · rintro ((h | h) | ⟨ax, ha, hd⟩)
+        · exact Or.inl h
+        · exact Or.inr ⟨x, Or.inl rfl, h.symm⟩
+        · exact Or.inr ⟨ax, Or.inr ha, hd⟩
+      · rintro (h | ⟨ax, ha | ha, hd⟩)
+        · exact Or.inl (Or.inl h)
+        · subst ha; exact Or.inl (Or.inr hd.symm)
+        · exact Or.inr ⟨ax, ha, hd⟩
+
+theorem getDims_outer (arrays : List (List Axis)) : ∀ (dims : List String), dims.Nodup →
+    (arrays.foldl (fun dims axes => axes.foldl (fun ds ax => if ds.contains ax.name then ds else ds ++ [ax.name]) dims) dims).Nodup ∧
+    ∀ d, d ∈ arrays.foldl (fun dims axes => axes.foldl (fun ds ax => if ds.contains ax.name then ds else ds ++ [ax.name]) dims) dims ↔
+      d ∈ dims ∨ ∃ axes ∈ arrays, ∃ ax ∈ axes, ax.name = d := by
+  induction arrays with
+  | nil => intro dims hn; simp [hn]
+  | cons x xs ih =>
+    intro dims hn
+    simp only [List.foldl_cons]
+    obtain ⟨h1, h2⟩ := getDims_inner x dims hn
+    obtain ⟨h3, h4⟩ := ih _ h1
+    refine ⟨h3, fun d => ?_⟩
+    rw [h4 d, h2 d]
+    simp only [List.mem_cons]
+    constructor
+    · rintro ((h | h) | ⟨axes, ha, h⟩)
+      · exact Or.inl h
+      · exact Or.inr ⟨x, Or.inl rfl, h⟩
+      · exact Or.inr ⟨axes, Or.inr ha, h⟩
+    · rintro (h | ⟨axes, ha | ha, h⟩)
+      · exact Or.inl (Or.inl h)
+      · subst ha; exact Or.inl (Or.inr h)
+      · exact Or.inr ⟨axes, ha, h⟩
+
+/-- the dimensions of a list of arrays: every dimension name that occurs, once -/
+theorem getDims_nodup (arrays : List (List Axis)) : (getDims arrays).Nodup :=
+  (getDims_outer arrays [] (by simp)).1
+
+theorem getDims_mem (arrays : List (List Axis)) (d : String) :
+    d ∈ getDims arrays ↔ ∃ axes ∈ arrays, ∃ ax ∈ axes, ax.name = d := by
+  unfold getDims
+  rw [(getDims_outer arrays [] (by simp)).2 d]
+  simp
+
+/-! ### `_get_aligned_axes` -/
+
+/-- the arrays' axes named `d` (one per array that has the dimension) -/
+def havingAxes (arrays : List (List Axis)) (d : String) : List Axis :=
+  arrays.filterMap (fun axes => axes.find? (·.name == d))
+
+def alignDims (arrays : List (List Axis)) : Option String → List String
+  | none => getDims arrays
+  | some d => [d]
+
+/-- success of `_get_aligned_axes` (not strict): one axis per requested dimension, each the common axis of the
+axes of that name (sorted when asked) -/
+theorem getAlignedAxes_ok (arrays : List (List Axis)) (join : Join) (axis : Option String) (sort : Bool)
+    (commons : List Axis) (h : getAlignedAxes arrays join axis sort false = .ok commons) :
+    commons.length = (alignDims arrays axis).length ∧
+    ∀ i (hi : i < (alignDims arrays axis).length) (ho : i < commons.length),
+      ∃ ax, commonAxis join (havingAxes arrays (alignDims arrays axis)[i]) = some ax ∧
+        commons[i] = if sort then axisSort ax else ax := by
+  unfold getAlignedAxes at h
+  obtain ⟨hl, hs⟩ := exMapM_ok _ (alignDims arrays axis) _ h
+  refine ⟨hl, ?_⟩
+  intro i hi ho
+  have := hs i hi ho
+  simp only [Bool.false_and, Bool.false_eq_true, if_false] at this
+  unfold havingAxes
+  split at this
+  · cases this
+  · rename_i ax hax
+    simp only [pure, Except.pure, Except.ok.injEq] at this
+    exact ⟨ax, hax, this.symm⟩
+
 end DimModel
